@@ -71,6 +71,15 @@ func GenShapes(shapes []Shape, id, pkgRel string) *Scenario {
 		}
 		src := b.Struct(sp, fmt.Sprintf("S%d", i), "X int", "Y string")
 		dst := b.Struct(dp, fmt.Sprintf("D%d", i), "X int", "Y string")
+		if i%7 == 3 {
+			// a destination type that itself implements error is a destination like any other: whether the function
+			// has an `err error` result is decided by the method's declared results alone
+			recv := "*"
+			if i%2 == 1 {
+				recv = ""
+			}
+			dst.Methods = append(dst.Methods, fmt.Sprintf("func (d %sD%d) Error() string { return \"d\" }\n", recv, i))
+		}
 		m := &Method{Name: fmt.Sprintf("M%d", i), HasErr: sh.Err}
 		if sh.Recv && i%3 == 0 {
 			// a generated method may be named like a package-level declaration (its own result type)
